@@ -279,9 +279,14 @@ def run(tier, seed, ck=None, which=None):
         Bt = '((_ zero_extend 64) %s)' % concat_bytes_be(bn[:24])
         K192, K384 = pow(2, 192, P) * R % P, pow(2, 384, P) * R % P
         spec = '({fa} ({fa} ({to} {A}) ({fm} ({to} {B}) {k1})) ({fm} ({to} (_ bv0 256)) {k2}))'.format(fa=fa, fm=fm, to=mu.to, A=A, B=Bt, k1=bvconst256(K192), k2=bvconst256(K384))
+        # the same value written without the vanishing third term, and with the two summands / factors in either order (Add and Mul are
+        # commutative by their contracts): any of these term shapes is the reduction of a + b*2^192
+        ta, tb = '({to} {A})'.format(to=mu.to, A=A), '({to} {B})'.format(to=mu.to, B=Bt)
+        k1 = bvconst256(K192)
+        shapes = [spec] + ['({fa} {x} {y})'.format(fa=fa, x=x_, y=y_) for pb in ('(%s %s %s)' % (fm, tb, k1), '(%s %s %s)' % (fm, k1, tb)) for x_, y_ in ((ta, pb), (pb, ta))]
         ck.prove_batch(low.all(), [('C12.HashToFieldElement.structure',
-                                    'e = To(a) + To(b)*M(2^192) + To(0)*M(2^384) with a,b the low/high 24-byte windows (a,b < 2^192 < p) and M(.) the Montgomery forms of 2^192, 2^384 mod p computed independently',
-                                    '(assert (not %s))' % limbs_eq(o['E']['f'], spec))], timeout=60)
+                                    'e = To(a) + To(b)*M(2^192) [+ To(0)*M(2^384)] with a,b the low/high 24-byte windows (a,b < 2^192 < p) and M(.) the Montgomery forms of 2^192, 2^384 mod p computed independently',
+                                    '(assert (not (or %s)))' % ' '.join(limbs_eq(o['E']['f'], sp) for sp in shapes))], timeout=60)
         ck.prove('C12.HashToFieldElement.split', 'OS2IP(48 bytes) = a + b*2^192 (so the value is OS2IP mod p by the kernel contracts)',
                  low.all() + '\n(assert (not (= %s (bvadd ((_ zero_extend 192) %s) (bvshl ((_ zero_extend 192) %s) (_ bv192 384))))))' % (
                      concat_bytes_be(bn), concat_bytes_be(bn[24:]), concat_bytes_be(bn[:24])), timeout=60)
